@@ -87,6 +87,34 @@ pub fn valid_case(cx: &mut Ctx, n: u64, case: &Value) {
                     if gv == Ok(want) { cx.ok("geometry_enum_is_valid"); } else { cx.bad("C14", "geometry_enum_is_valid", case, json!({"got": format!("{gv:?}"), "want": want})); }
                     let mv = guard(|| geo::MultiPolygon::new(vec![p.clone()]).is_valid());
                     if mv == Ok(want) { cx.ok("multipolygon_of_one_is_valid"); } else { cx.bad("C14", "multipolygon_of_one_is_valid", case, json!({"got": format!("{mv:?}"), "want": want})); }
+                    // the same polygon with f32 coordinates (exact on the lattice), in a GeometryCollection, and with the ring
+                    // written from another start vertex / in the opposite direction (validity is a property of the point set)
+                    {
+                        use geo::MapCoords;
+                        let pf: geo::Polygon<f32> = p.map_coords(|c| geo::Coord { x: c.x as f32, y: c.y as f32 });
+                        let fv = guard(|| (pf.is_valid(), pf.validation_errors().is_empty()));
+                        if fv == Ok((want, want)) { cx.ok("polygon_f32_is_valid"); } else { cx.bad("C14", "polygon_f32_is_valid", case, json!({"got": format!("{fv:?}"), "want": want})); }
+                        let gcv = guard(|| geo::GeometryCollection::new_from(vec![geo::Geometry::Point(geo::Point::new(0.0, 0.0)), geo::Geometry::Polygon(p.clone())]).is_valid());
+                        if gcv == Ok(want) { cx.ok("collection_member_is_valid"); } else { cx.bad("C14", "collection_member_is_valid", case, json!({"got": format!("{gcv:?}"), "want": want})); }
+                        let turn = |l: &geo::LineString<f64>, k: usize, rev: bool| -> geo::LineString<f64> {
+                            if l.0.len() < 2 { return l.clone(); }
+                            let mut open: Vec<geo::Coord<f64>> = l.0[..l.0.len() - 1].to_vec();
+                            let kk = k % open.len();
+                            open.rotate_left(kk);
+                            if rev { open.reverse(); }
+                            open.push(open[0]);
+                            geo::LineString::new(open)
+                        };
+                        for (k, rev) in [(1usize, false), (2, true), (0, true)] {
+                            let closed_input = p.exterior().0.first() == p.exterior().0.last() && p.interiors().iter().all(|h| h.0.first() == h.0.last());
+                            if !closed_input { break; }
+                            let q = geo::Polygon::new(turn(p.exterior(), k, rev), p.interiors().iter().map(|h| turn(h, k + 1, !rev)).collect());
+                            let qv = guard(|| (q.is_valid(), q.validation_errors().is_empty()));
+                            if qv == Ok((want, want)) { cx.ok("polygon_respelled_is_valid"); } else {
+                                cx.bad("C14", "polygon_respelled_is_valid", case, json!({"what": format!("rings rotated by {k}, shell reversed: {rev}"), "got": format!("{qv:?}"), "want": want, "polygon": gj::geometry_to_json(&geo::Geometry::Polygon(q))}));
+                            }
+                        }
+                    }
                     // a non-finite coordinate makes any polygon invalid, and the error names ring and index
                     if want {
                         let mut e = p.exterior().0.clone();
